@@ -295,16 +295,43 @@ pub fn build(e: &mut Ent, o: &Opts) -> ElfSpec {
         let len = e.below(40);
         secs.push(mk(&n, e.pick(&[1u32, 7, 0x70000000, 3]), e.u32() >> 8, len, Some((0..len).map(|k| (k as u8).wrapping_mul(37)).collect())));
     }
-    // string table for the symbols
+    // string table for the symbols. One table in three is written the way a linker with string merging writes
+    // it: a name that is the tail of a string already in the table (or equal to one) refers into that entry
+    // instead of getting its own - legal ELF (a string table index may point at any byte of the section) - and
+    // now and then unreferenced strings sit between the entries.
+    let share_sym = e.chance(1, 3);
+    let share_sec = e.chance(1, 3);
+    fn intern(table: &mut Vec<u8>, name: &str, share: bool) -> u32 {
+        let n = name.as_bytes();
+        if share && !n.is_empty() {
+            let mut p = 0usize;
+            while p + n.len() < table.len() {
+                if &table[p..p + n.len()] == n && table[p + n.len()] == 0 {
+                    return p as u32;
+                }
+                p += 1;
+            }
+        }
+        let idx = table.len() as u32;
+        table.extend_from_slice(n);
+        table.push(0);
+        idx
+    }
     if have_symtab {
         let mut strtab: Vec<u8> = vec![0];
         let mut symdata: Vec<u8> = vec![];
-        for (name, val) in &symbols {
-            let idx = if name.is_empty() { 0 } else { strtab.len() as u32 };
-            if !name.is_empty() {
-                strtab.extend_from_slice(name.as_bytes());
-                strtab.push(0);
+        if share_sym && e.chance(1, 2) {
+            // strings no symbol refers to, some of them with the exit symbol's name as their tail
+            for _ in 0..1 + e.below(3) {
+                let junk = match e.below(3) {
+                    0 => e.pick(&["_call___exit", "at___exit", "___exit.part.0", "x___exit", "__libc___exit"]).to_string(),
+                    _ => graphic_name(e, b"ABCxyz_.$mainfoo"),
+                };
+                intern(&mut strtab, &junk, false);
             }
+        }
+        for (name, val) in &symbols {
+            let idx = if name.is_empty() { 0 } else { intern(&mut strtab, name, share_sym) };
             be32(&mut symdata, idx);
             be32(&mut symdata, *val);
             be32(&mut symdata, e.below(0x100));
@@ -337,13 +364,17 @@ pub fn build(e: &mut Ent, o: &Opts) -> ElfSpec {
     // section name string table
     let mut shstr: Vec<u8> = vec![0];
     let mut name_idx: Vec<u32> = vec![];
+    if share_sec && e.chance(1, 2) {
+        for _ in 0..1 + e.below(3) {
+            let junk = e.pick(&[".rela.got", ".rela.text", ".init.stack", ".dynsymtab", ".gnu.strtab", ".note.shstrtab", ".data.rel.got"]);
+            intern(&mut shstr, junk, false);
+        }
+    }
     for s in &secs {
         if s.name.is_empty() {
             name_idx.push(0);
         } else {
-            name_idx.push(shstr.len() as u32);
-            shstr.extend_from_slice(s.name.as_bytes());
-            shstr.push(0);
+            name_idx.push(intern(&mut shstr, &s.name, share_sec));
         }
     }
     secs[shstrndx].size = shstr.len() as u32;
